@@ -368,7 +368,13 @@ class RegWorld(World):
             self.loop.call_soon(self._start)
             table = {'register': self.op_call, 'unregister': self.op_call, 'route': self.op_route,
                      'reconnect': self.op_reconnect}
-            ops = sorted([o for o in self.scenario['ops'] if not o.get('early')], key=lambda o: o['at'])
+            ops = sorted([o for o in self.scenario['ops'] if not o.get('early') and not o.get('at_open')], key=lambda o: o['at'])
+            at_open = [o for o in self.scenario['ops'] if o.get('at_open')]
+            if at_open:
+                def opened():
+                    self.face.on_opened = None          # (the first connection only)
+                    self._run_ops([(table[o['op']], o) for o in at_open])
+                self.face.on_opened = opened
             i = 0
             while i < len(ops):
                 j = i
@@ -622,6 +628,11 @@ def generate(rng, seed, tier='quick'):
             used.add(tuple(pfx))
             at = rng.randint(2000, t + 1000) if not routes_before or rng.random() < 0.4 else rng.choice([20, 60, 150, 400, 1200])
             ops.append({'at': at, 'op': 'route', 'prefix': pfx})
+    if routes_before and rng.random() < 0.12:
+        # ... or in the very moment the connection is up: open() has returned, the start-up registrations have not begun
+        pfx = ['t', rng.choice(['x', 'y'])]
+        used.add(tuple(pfx))
+        ops.append({'at': 0, 'op': 'route', 'prefix': pfx, 'at_open': True})
     if cfg.get('open_delay_us') and rng.random() < 0.6:
         # a route declared while the connection is still being opened: it is a declared route of this connection
         pfx = ['o', rng.choice(['x', 'y'])]
